@@ -60,6 +60,19 @@ GOOD = '$A + 1000'
 # independent translation
 
 _ASCII_IDENT = re.compile(r'[A-Za-z_][A-Za-z_0-9]*\Z')
+# after these tokens Python wants a bare identifier: `x.$A`, `def $A()`, `import $A` have no `rec.name` reading
+_NAME_ONLY_CONTEXT = ('.', 'import', 'from', 'as', 'global', 'nonlocal', 'def', 'class')
+_BLANK_LINE_WS = re.compile(r'(?m)^[ \t]+$')
+
+
+def _strip_blank_line_ws(v):
+  if isinstance(v, str):
+    return _BLANK_LINE_WS.sub('', v)
+  if isinstance(v, list):
+    return [_strip_blank_line_ws(x) for x in v]
+  if isinstance(v, dict):
+    return {_strip_blank_line_ws(k): _strip_blank_line_ws(x) for k, x in v.items()}
+  return v
 
 
 def dedent(text):
@@ -133,7 +146,7 @@ def translate(formula):
   except (tokenize.TokenError, SyntaxError) as e:
     return Spec('invalid', 'tokenize: %s' % type(e).__name__, features=feats)
   except (RecursionError, MemoryError, ValueError) as e:
-    return Spec('invalid', 'tokenize: %s' % type(e).__name__, features=feats)
+    return Spec('exotic', 'reference translation cannot tokenize: %s' % type(e).__name__, features=feats + ['too-deep'])
   odd = None
   edits = []
   for i, t in enumerate(toks):
@@ -158,6 +171,8 @@ def translate(formula):
         odd = 'dollar + non-ascii name'
       if prev is not None and prev.end == t.start and prev.type in (tokenize.NAME, tokenize.NUMBER):
         odd = 'dollar glued to previous token'
+      if prev is not None and prev.string in _NAME_ONLY_CONTEXT:
+        odd = 'dollar name where python wants a plain name'
       edits.append(starts[t.start[0] - 1] + t.start[1])
       feats.append('dollar-name')
   if odd:
@@ -176,7 +191,7 @@ def translate(formula):
   except SyntaxError as e:
     return Spec('invalid', 'parse: %s' % type(e).__name__, features=feats)
   except (RecursionError, MemoryError, ValueError) as e:
-    return Spec('invalid', 'parse: %s' % type(e).__name__, features=feats + ['too-deep'])
+    return Spec('exotic', 'reference translation cannot parse: %s' % type(e).__name__, features=feats + ['too-deep'])
   body = list(tree.body)
   has_return = any(isinstance(n, ast.Return) for n in ast.walk(tree))
   if body and isinstance(body[-1], ast.Expr):
@@ -196,8 +211,6 @@ def translate(formula):
   why = _binds_rec(tree)
   if why:
     return Spec('invalid', why, features=feats + [why])
-  if _odd_bindings(tree):
-    return Spec('odd', 'rec bound by parameter/import/del/global', features=feats)
   fn = ast.FunctionDef(name='_formula', args=ast.arguments(
     posonlyargs=[], args=[ast.arg(arg='rec'), ast.arg(arg='table')], vararg=None, kwonlyargs=[], kw_defaults=[],
     kwarg=None, defaults=[]), body=body, decorator_list=[], returns=None, type_comment=None, type_params=[])
@@ -208,7 +221,9 @@ def translate(formula):
   except SyntaxError as e:
     return Spec('invalid', 'compile: %s' % (e.msg,), features=feats + ['rejected-by-compile-only'])
   except (RecursionError, MemoryError, ValueError) as e:
-    return Spec('invalid', 'compile: %s' % type(e).__name__, features=feats + ['too-deep'])
+    return Spec('exotic', 'reference translation cannot compile: %s' % type(e).__name__, features=feats + ['too-deep'])
+  if _odd_bindings(tree):
+    return Spec('odd', 'rec bound by parameter/import/del/global', features=feats)
   return Spec('valid', code=code, features=feats)
 
 
@@ -246,6 +261,8 @@ def evaluate(spec, row_id, a):
   exec(spec.code, g)
   try:
     res = g['_formula'](Rec(row_id, a), None)
+  except RecursionError:
+    return ('skip',)
   except Exception as e:     # the formula's own exception
     return ('raise', type(e).__name__)
   try:
@@ -358,6 +375,8 @@ def check_f(doc, spec, avals, kind):
       if cell != exp[1]:
         if eqv.is_error_cell(cell):
           kindsig = 'engine-error:%s' % (cell[1] if len(cell) > 1 else '?')
+        elif 'multi-line-string' in spec.features and _strip_blank_line_ws(cell) == _strip_blank_line_ws(exp[1]):
+          kindsig = 'multi-line-string-whitespace-only-line-altered'
         else:
           kindsig = 'value-differs'
         return ('valid-formula:' + kindsig, 'F[%d] (A=%r) holds %r; the text evaluates to %r' % (i + 1, a, cell, exp[1]),
